@@ -292,6 +292,9 @@ var appliedSharesCommitted, fastDisabled bool
 
 // StoreCanon is the canonical text of the store content of the world.
 func (w *World) StoreCanon() string {
+	if w.cfg.V3 {
+		return w.View3().Canon()
+	}
 	if w.atomix == nil || fastDisabled {
 		return w.View().Canon()
 	}
